@@ -290,3 +290,38 @@ func errClosedMeansClosed(p *Prog, r *Report, rule string) {
 	}
 	r.Count("c12.errclosed_sites_in_transports", n)
 }
+
+// importFrom runs a rule family into a scratch report and copies into r, under rule name
+// R, the obligations whose construct key starts with one of the package prefixes.  It lets
+// a behavioural property carry the cross-cutting necessary conditions (condition-variable
+// discipline, atomicity, timers …) of exactly the packages its mechanism lives in.
+func importFrom(p *Prog, r *Report, R, desc string, run func(tmp *Report, rule string), rels ...string) {
+	r.Describe(R, desc)
+	tmp := NewReport(r.Prop, r.Config)
+	run(tmp, "x")
+	n := 0
+	for _, o := range tmp.Obs {
+		keep := len(rels) == 1 && rels[0] == "*"
+		for _, rel := range rels {
+			if strings.HasPrefix(o.Key, rel+".") || strings.HasPrefix(o.Key, rel+"/") || strings.Contains(o.Key, "/"+rel+".") {
+				keep = true
+			}
+		}
+		if !keep {
+			continue
+		}
+		n++
+		r.add(R, o.Key, o.Status, o.Pos, o.Msg, o.Witness)
+	}
+	if n == 0 {
+		r.OK(R, strings.Join(rels, ","), "-", "no obligation of this family in these packages")
+	}
+}
+
+// crossCutting: the engine-level necessary conditions of a behavioural property, restricted
+// to its packages: condition variables (wake-ups are not lost), check-then-act atomicity,
+// closed => ErrClosed.  (Lock balance and message ownership are added separately.)
+func crossCutting(p *Prog, r *Report, prefix string, rels ...string) {
+	importFrom(p, r, prefix+"/cond", "condition-variable discipline in "+strings.Join(rels, ", ")+": Wait in a loop that re-checks, in the loop, a condition its closer falsifies; closers broadcast; Signal only with a single waiter", func(t *Report, rule string) { e4CondWaits(p, t, rule) }, rels...)
+	importFrom(p, r, prefix+"/E3b", "check-then-act atomicity in "+strings.Join(rels, ", "), func(t *Report, rule string) { e3bObligations(p, t, rule, nil) }, rels...)
+}
